@@ -355,12 +355,14 @@ type c12Invariant struct {
 // c12Invariants (R7): the validation steps that the exemption table relies on are really performed:
 // every non-error return of the named function is dominated by a rejecting guard (a condition whose
 // other branch returns an error) that mentions all the listed names.
-func c12Invariants(r *core.Report) {
-	const rule = "C12.R7"
+func c12Invariants(r *core.Report) { checkInvariantTable(r, "C12.R7", "c12_invariants.json") }
+
+// checkInvariantTable: see c12Invariants; shared by other properties with their own tables.
+func checkInvariantTable(r *core.Report, rule, tableFile string) {
 	p := r.Prog
-	b, err := os.ReadFile(filepath.Join(VerifDir, "tables", "c12_invariants.json"))
+	b, err := os.ReadFile(filepath.Join(VerifDir, "tables", tableFile))
 	if err != nil {
-		r.Undecided(rule, "table", "", "tables/c12_invariants.json missing: "+err.Error())
+		r.Undecided(rule, "table", "", "tables/"+tableFile+" missing: "+err.Error())
 		return
 	}
 	var list []c12Invariant
